@@ -652,6 +652,12 @@ func (a *ivAnalyzer) analyze(fn *ssa.Function, params []ival) ([]ival, bool) {
 							} else {
 								good := nonNeg(idx) && ltIv(idx, ln)
 								a.oblige(fn, instrPos(x), "index", good, "byte stored at index %s of a buffer of length %s", idx, ln)
+								// remember the lowest position written so far on this path (for the "nothing written
+								// below the returned start" obligation of right-to-left writers)
+								lk := a.cell(fn, "#lowest-written")
+								if old, has := e[lk]; !has || (old.sym == idx.sym && idx.hi.Cmp(old.hi) < 0) {
+									e[lk] = idx
+								}
 							}
 						}
 					case *ssa.Slice:
@@ -797,6 +803,15 @@ func (a *ivAnalyzer) analyze(fn *ssa.Function, params []ival) ([]ival, bool) {
 							}
 						}
 					case *ssa.Return:
+						// a right-to-left writer returns the index where its text begins: a byte it stored at a
+						// position definitely below that index is not part of the text
+						if len(x.Results) >= 1 && isIntLike(x.Results[0].Type()) {
+							if low, has := e[a.cell(fn, "#lowest-written")]; has {
+								if rv0, ok := a.eval(x.Results[0], e); ok && rv0.sym == low.sym && low.hi.Cmp(rv0.lo) < 0 {
+									a.oblige(fn, instrPos(x), "start", false, "a byte was stored at index %s but the returned start index is %s: the byte is cut off the result", low, rv0)
+								}
+							}
+						}
 						for i, rv := range x.Results {
 							v, ok := a.eval(rv, e)
 							if !ok {
